@@ -133,11 +133,16 @@ def check_ngram(case):
     if A.shape != want.shape:
         r.fail("shape", site + ".fit_transform", "shape %s, expected %s" % (A.shape, want.shape))
         return r
-    if not np.array_equal(A, want):
-        i, j = np.argwhere(A != want)[0]
-        inv = {v: k for k, v in col.items()}
-        r.fail("count", site + ".fit_transform", "doc %d %r, n-gram %r: got %r, counted %r" % (i, seqs[i], inv.get(j), A[i, j], want[i, j]),
-               label_len=len(inv.get(j)) if isinstance(inv.get(j), tuple) else 0)
+    inv = {v: k for k, v in col.items()}
+    # columns of the recorded finding F12 (unigram columns in subgrams mode) are judged separately so that the
+    # search continues behind it
+    uni = np.array([bool(beh == "subgrams" and n > 1 and isinstance(inv.get(j), tuple) and len(inv.get(j)) == 1) for j in range(len(col))], dtype=bool)
+    for sel, tag in ((~uni, False), (uni, True)):
+        if sel.any() and not np.array_equal(A[:, sel], want[:, sel]):
+            i, jj = np.argwhere(A[:, sel] != want[:, sel])[0]
+            j = np.flatnonzero(sel)[jj]
+            r.fail("count", site + ".fit_transform", "doc %d %r, n-gram %r: got %r, counted %r" % (i, seqs[i], inv.get(j), A[i, j], want[i, j]),
+                   subgram_unigram=tag)
     # every n-gram of the training data that survives pruning must have a column when the dictionary was learned
     if "ngram_dictionary" not in kw and not prune:
         allg = set(g for sq in seqs for g in grams_of(sq, n, beh))
@@ -153,11 +158,13 @@ def check_ngram(case):
         At = dense(L, T)
         if At.shape != want_t.shape:
             r.fail("shape", site + ".transform", "shape %s, expected %s" % (At.shape, want_t.shape))
-        elif not np.array_equal(At, want_t):
-            i, j = np.argwhere(At != want_t)[0]
-            inv = {v: k for k, v in col.items()}
-            r.fail("count", site + ".transform", "doc %d %r -> %r, n-gram %r: got %r, counted %r"
-                   % (i, test[i], seqs_t[i], inv.get(j), At[i, j], want_t[i, j]), masked=mask is not None)
+        else:
+            for sel, tag in ((~uni, False), (uni, True)):
+                if sel.any() and not np.array_equal(At[:, sel], want_t[:, sel]):
+                    i, jj = np.argwhere(At[:, sel] != want_t[:, sel])[0]
+                    j = np.flatnonzero(sel)[jj]
+                    r.fail("count", site + ".transform", "doc %d %r -> %r, n-gram %r: got %r, counted %r"
+                           % (i, test[i], seqs_t[i], inv.get(j), At[i, j], want_t[i, j]), subgram_unigram=tag)
     r.nontrivial = bool((want >= 2).any()) or bool(len(docs) > 1 and (want.sum(0) >= 2).any())
     return r
 
